@@ -6,10 +6,13 @@ import (
 	"github.com/brewlin/net-protocol/pkg/rand"
 
 	tcpip "github.com/brewlin/net-protocol/protocol"
+	"github.com/brewlin/net-protocol/protocol/network/ipv4"
+	"github.com/brewlin/net-protocol/protocol/network/ipv6"
 )
 
 // TCPPeer is the scripted raw peer's view of one TCP 4-tuple.
 type TCPPeer struct {
+	NoWait    bool // Send does not wait for the stack to settle
 	w         *PeerWorld
 	V6        bool
 	PAddr     tcpip.Address // peer (scripted) address
@@ -48,6 +51,20 @@ func (p *TCPPeer) Send(flags uint8, seq, ack uint32, win uint16, opts, payload [
 		opts = append(append([]byte(nil), opts...), codec.PadOpts(codec.OptTS(p.tsClock, p.TSRecent))...)
 	}
 	seg := codec.EncodeTCP([]byte(p.PAddr), []byte(p.SAddr), &codec.TCPSeg{SrcPort: p.PPort, DstPort: p.SPort, Seq: seq, Ack: ack, Flags: flags, Window: win, Opts: opts, Payload: payload})
+	if p.NoWait {
+		// handed to the link's receive goroutine without waiting: the next segment may be queued behind it
+		proto := tcpip.NetworkProtocolNumber(ipv4.ProtocolNumber)
+		var pkt []byte
+		if p.V6 {
+			proto = ipv6.ProtocolNumber
+			pkt = codec.IPv6([]byte(p.PAddr), []byte(p.SAddr), codec.ProtoTCP, 64, seg)
+		} else {
+			p.w.ipid++
+			pkt = codec.IPv4([]byte(p.PAddr), []byte(p.SAddr), codec.ProtoTCP, p.w.ipid, 64, false, false, 0, seg)
+		}
+		p.w.InjectNoWait(p.w.S.Link, proto, pkt, p.Mode)
+		return
+	}
 	p.w.InjectIP(p.V6, p.PAddr, p.SAddr, codec.ProtoTCP, seg, p.Mode)
 }
 
